@@ -464,7 +464,9 @@ end DH.Timeout
 One `JobObs` per submitted job, in submission order (index = job id), built by the harness from what
 the implementation did: the sequence of status writes, the tick it started / returned, the natural end
 of its run-function, the deadline that was in effect when it started (`none`: no timeout requested),
-whether its last status read was CANCELLING, whether it reads the status again after starting, whether
+whether its last status read was CANCELLING, whether it reads the status again after starting, whether the
+evaluator's loop ran between the deadline and its return (CANCELLING is written by the loop: while the caller
+keeps the loop from running no evaluation can observe it), whether
 one of its instants coincides with the deadline (`tie`: either outcome is accepted), whether it was
 reported by a gather, whether the reported value is the one it returned. -/
 
@@ -479,6 +481,7 @@ structure JobObs where
   deadline : Option Nat
   saw : Bool
   pollsAgain : Bool
+  loopRan : Bool          -- the evaluator's event loop ran between the deadline and the job's return
   tie : Bool
   gathered : Bool
   valueKept : Bool
@@ -505,7 +508,7 @@ def classifiedB (j : JobObs) : Bool :=
   | none => j.log == logDone && !j.saw
   | some c =>
     (!decide (c < j.start) || (j.log == logCancelled && (!j.pollsAgain || j.saw))) &&
-    (!(decide (j.start < c) && decide (c < j.natEnd)) || (j.log == logCancelled && j.saw)) &&
+    (!(decide (j.start < c) && decide (c < j.natEnd)) || (j.log == logCancelled && (!j.loopRan || j.saw))) &&
     (!(decide (j.ret < c) && decide (j.natEnd < c)) || (j.log == logDone && !j.saw))
 
 def checkStatusLog (o : Obs) : Bool :=
